@@ -199,9 +199,14 @@ impl Model {
         }
         self.returned.insert(id);
     }
-    pub fn after_reload(&mut self) {
-        self.pos = 0;
-        self.returned.clear();
+    /// The history goes on with the reloaded image. Where its allocator stands is a fact read from
+    /// the hook: the statement of C08 permits a restart from the lowest absent id (what the pinned
+    /// tree does: position 0) and equally carrying on like the original.
+    pub fn after_reload(&mut self, observed_pos: usize) {
+        if observed_pos < self.pos {
+            self.returned.clear();
+        }
+        self.pos = observed_pos;
     }
 
     // ---------------------------------------------------------------- legality
